@@ -42,7 +42,23 @@ class MyAssertS(AssertionError):
         return self.m
 
 
-EXC = [ValueError, KeyError, MyAssert, Boom]
+def mk_syntax_error(msg='bad'):
+    """A real SyntaxError (its traceback ends with a 'File "<config>", line 1'
+    location line that has no ', in <name>' part)."""
+    try:
+        compile('x = = 1', '<config>', 'exec')
+    except SyntaxError as e:
+        return e
+
+
+class BadStr(Exception):
+    """Exception whose str() raises."""
+
+    def __str__(self):
+        raise RuntimeError('cannot render')
+
+
+EXC = [ValueError, KeyError, MyAssert, Boom, mk_syntax_error, BadStr]
 
 # ---------------------------------------------------------------- layers
 
@@ -108,20 +124,28 @@ def lname(layer):
 # ---------------------------------------------------------------- tests
 
 (PASS, FAIL, ERROR, SKIP_BODY, SKIP_DECO, XFAIL, ERR_TD, SUBFAIL2, SKIP_SETUP, XPASS,
- CLEANUP_ERR, SYSEXIT, SETUP_ERR, TD_ERR, SUB_ERR, SUBPASS_PASS, SUBPASS_FAIL) = range(17)
+ CLEANUP_ERR, SYSEXIT, SETUP_ERR, TD_ERR, SUB_ERR, SUBPASS_PASS, SUBPASS_FAIL, SWAP_ERR) = range(18)
 KIND_NAMES = ['pass', 'fail', 'error', 'skip-in-body', 'skip-decorator', 'expected-failure',
               'body-error+tearDown-error', 'two-failing-subtests', 'skip-in-setUp', 'unexpected-success',
               'cleanup-error', 'SystemExit-in-body', 'setUp-error', 'tearDown-error', 'subtest-error+pass',
-              'passing-subtest-then-pass', 'passing-subtest-then-fail']
+              'passing-subtest-then-pass', 'passing-subtest-then-fail', 'error-while-stderr-silenced']
 # number of failure / error / skip result events each kind produces
 N_FAIL = {FAIL: 1, SUBFAIL2: 2, SUBPASS_FAIL: 1}
-N_ERR = {ERROR: 1, ERR_TD: 2, CLEANUP_ERR: 1, SYSEXIT: 1, SETUP_ERR: 1, TD_ERR: 1, SUB_ERR: 1}
+N_ERR = {ERROR: 1, ERR_TD: 2, CLEANUP_ERR: 1, SYSEXIT: 1, SETUP_ERR: 1, TD_ERR: 1, SUB_ERR: 1, SWAP_ERR: 1}
 N_SKIP = {SKIP_BODY: 1, SKIP_DECO: 1, SKIP_SETUP: 1}
 BAD = set(N_FAIL) | set(N_ERR) | {XPASS}
 
 
 def is_bad(kind):
     return kind in BAD
+
+
+class _Silencer:
+    def write(self, s):
+        return len(s)
+
+    def flush(self):
+        pass
 
 
 def mk_test(name, kind, layer=None, level=None, exc=0, out=None, count=None, body=None, late=None):
@@ -141,6 +165,10 @@ def mk_test(name, kind, layer=None, level=None, exc=0, out=None, count=None, bod
                 raise E('setUp')
             if kind == CLEANUP_ERR:
                 self.addCleanup(self._cleanup)
+            if kind == SWAP_ERR:        # the test silences stderr with an object that is no StringIO, restores it in a cleanup
+                saved = sys.stderr
+                sys.stderr = _Silencer()
+                self.addCleanup(setattr, sys, 'stderr', saved)
 
         def _cleanup(self):
             ev('cleanup', name)
@@ -152,7 +180,7 @@ def mk_test(name, kind, layer=None, level=None, exc=0, out=None, count=None, bod
                 body()
             if kind == FAIL:
                 self.fail('failed ' + name)
-            elif kind == ERROR:
+            elif kind in (ERROR, SWAP_ERR):
                 raise E('error ' + name)
             elif kind == SKIP_BODY:
                 self.skipTest('why')
